@@ -17,6 +17,12 @@ CONSTANTS
   FreshPipe = TRUE
   ResetClosed = TRUE
   BlockAfterClose = TRUE
+  BusyTicks = 3
+  SlowTicks = 3
+  WaitT = 1
+  TermT = 5
+  WaitTruthful = TRUE
+  TermOwnTimeout = TRUE
 INVARIANT TypeOK
 CHECK_DEADLOCK FALSE
 INVARIANT PathDump
